@@ -49,7 +49,7 @@ SHRINK_BUDGET = 120
 FAULT_OPS = ("gc", "alloc", "pool")
 PROBES = [
     "reused_address_still_cached", "legit_cache_hit_possible", "eviction_ran",
-    "parent_keys_shipped_to_worker", "process_pool_used", "lookalike_neighbours_in_batch",
+    "process_pool_used", "lookalike_neighbours_in_batch",
     "second_fit_same_reactor", "nested_parallel", "crash_mid_fit",
     "cluster_batched", "validate_parallel", "validate_tautomer_sensitive_pair", "balance_parallel", "crn_parallel",
 ]
@@ -307,7 +307,11 @@ def _run(case: Dict[str, Any], sim: Sim, world: World) -> None:
     def on_parallel(n_jobs: int, n_tasks: int) -> None:
         if world.depth > 0 and n_jobs > 1:
             sim.probe("nested_parallel")
-        if n_jobs > 1 and any(True for _ in cache_keys()):
+        cur = getattr(world, "_fitting", None)
+        c = getattr(getattr(cur, "_apply_rule", None), "_cache", None) if cur is not None else None
+        if n_jobs > 1 and c:
+            # (not reachable through the public configuration on the unchanged tree: a reactor is either serial or
+            #  parallel for its whole life, so a non-empty cache is never pickled to workers; kept for mutants)
             sim.probe("parent_keys_shipped_to_worker")
 
     world.on_parallel_call.append(on_parallel)
@@ -368,15 +372,21 @@ def _run(case: Dict[str, Any], sim: Sim, world: World) -> None:
         R["fits"] += 1
         crash_armed = world.pool_cfg.get("crash_at") is not None
         cond = "cache=%s entry_jobs=%s" % ("on" if cfg["cache"] else "off", "1" if cfg["entry_jobs"] == 1 else ">1")
+        world._fitting = R["br"]
         try:
-            out = R["br"].fit(arg, invert=op["invert"])
+            if not op["invert"] and op.get("s", 0) % 3 == 0:
+                out = R["br"].fit(arg)                       # documented default: invert=False
+            else:
+                out = R["br"].fit(arg, invert=op["invert"])
         except TerminatedWorkerError:
+            world._fitting = None
             if not crash_armed:
                 raise
             sim.probe("crash_mid_fit")
             sim.event("fit", {"slot": slot, "out": "TerminatedWorkerError"})
             return
         del arg
+        world._fitting = None
         if not isinstance(out, list) or len(out) != len(R["entries"]):
             raise Violation(PROP, "BatchReactor.fit", "result_list_shortened_or_shifted", cond,
                             {"entries": len(R["entries"]), "results": (len(out) if isinstance(out, list) else repr(type(out)))})
